@@ -43,6 +43,10 @@ func main() {
 	manifest := flag.Bool("manifest", false, "print MANIFEST.json for the registered properties and exit")
 	dumpfn := flag.String("dumpfn", "", "debug: pkg:func to dump SSA of")
 	flag.Parse()
+	if *dumpfn == "NEVERWRITTEN" {
+		debugNeverWritten(loadWorld(*repo))
+		return
+	}
 	if *dumpfn == "LOOPS" {
 		debugLoops(loadWorld(*repo))
 		return
@@ -151,5 +155,11 @@ func debugLoops(w *World) {
 			}
 			fmt.Printf("%s | %s | exit at %s\n", w.fname(fn), ex.loop.what, w.pos(exitPos(ex)))
 		}
+	}
+}
+
+func debugNeverWritten(w *World) {
+	for _, u := range neverWrittenFields(w, "compose", "schema", "internal", "flow", "callbacks", "components") {
+		fmt.Printf("%s.%s (%s) reads=%d first=%s\n", u.owner.Obj().Name(), u.field.Name(), u.field.Type(), len(u.reads), w.pos(u.reads[0].Pos()))
 	}
 }
